@@ -203,6 +203,18 @@ class CallMixin:
         # interface reference: dynamic class unknown
         names = self.static_names(ref)
         ic = self.registry.find_iface(names, attr)
+        if ic is None and ci is not None:
+            # a method of a finam class that no finam subclass overrides and that is under contract for this class:
+            # the contract is used (user subclasses are assumed not to override it -- listed assumption)
+            fi = self.repo.lookup_method(ci, attr)
+            if fi is not None and not any(attr in c.methods for c in self.repo.subclasses(ci) if c is not ci):
+                c = self.registry.find(fi.qual, [x.name for x in ci.mro])
+                if c is not None and c.self_cls == ci.name:
+                    self.assumptions.add(f"{ci.name}.{attr} is not overridden by user subclasses (contract of the finam method used at call sites)")
+                    ref2 = sv.SRef(ref.e, ci.name, True)
+                    if fi.is_property:
+                        return self.call_function(fi, [ref2], {}, path, node, self_ref=ref2)
+                    return sv.SPy("bound", (fi, ref2))
         if ic is not None:
             if ic.params or ic.note == "method":
                 return sv.SPy("ibound", (ic, ref))
@@ -429,6 +441,29 @@ class CallMixin:
                 finally:
                     self.frames.pop()
                     path.env = saved
+            if w == "closure":
+                fnode, env, frame = fn.payload
+                names = [a.arg for a in fnode.args.args]
+                p = path.clone()
+                p.env = dict(env)
+                p.env.update(dict(zip(names, args)))
+                self.frames.append(frame)
+                self.frame_depth += 1
+                try:
+                    outs = [o for o in self.exec_block(fnode.body, p) if not o[1].dead]
+                finally:
+                    self.frames.pop()
+                    self.frame_depth -= 1
+                if not outs:
+                    raise DeadPath()
+                k = self.choose_n(path, len(outs)) if len(outs) > 1 else 0
+                kind, p2, val = outs[k]
+                env0, guards, memo, pos = path.env, path.guards, path.memo, path.memo_pos
+                path.__dict__.update(p2.__dict__)
+                path.env, path.guards, path.memo, path.memo_pos = env0, guards, memo, pos
+                if kind == RAISE:
+                    raise RaisedInExpr(path, val)
+                return val if kind == RET else sv.NONE
             if w == "logger":
                 self.dropped += 1
                 return sv.NONE
